@@ -19,7 +19,11 @@ pub struct RawCfg {
 
 impl RawCfg {
     pub fn orient(&self, kind: Kind) -> Cfg {
+        // a fixed-rate family used "the other way round" (about one configuration in six, where its envelope allows it)
+        let wrong_side = self.flip && (self.bounded + self.other + self.size / 2) % 3 == 0;
         let (k, r) = match kind {
+            Kind::High if wrong_side && kind.env(self.bounded, self.other) => (self.bounded, self.other),
+            Kind::Low if wrong_side && kind.env(self.other, self.bounded) => (self.other, self.bounded),
             Kind::High => (self.other, self.bounded),
             Kind::Low => (self.bounded, self.other),
             _ => {
